@@ -542,3 +542,19 @@ def fmt_view(e: ast.expr):
             return None
         return out
     return None
+
+
+def membership_view(test: ast.expr):
+    """(subject text, [element expr, ...]) for `s in [a, b]`, `s in (a, b)`, `s == a`, `s == a or s == b` (same subject);
+    None for anything else."""
+    if isinstance(test, ast.BoolOp) and isinstance(test.op, ast.Or):
+        parts = [membership_view(v) for v in test.values]
+        if all(p is not None for p in parts) and len({p[0] for p in parts}) == 1:
+            return parts[0][0], [e for p in parts for e in p[1]]
+        return None
+    if isinstance(test, ast.Compare) and len(test.ops) == 1:
+        if isinstance(test.ops[0], ast.In) and isinstance(test.comparators[0], (ast.List, ast.Tuple, ast.Set)):
+            return unparse(test.left), list(test.comparators[0].elts)
+        if isinstance(test.ops[0], ast.Eq):
+            return unparse(test.left), [test.comparators[0]]
+    return None
